@@ -58,7 +58,7 @@ DROPINS = ['[Unit]\nDescription=from the drop-in\n', '[Service]\nEnvironment=FRO
            '[Unit]\nAfter=dropin.service\n[Service]\nRestart=always\n']
 
 
-def run_set(placement, order=None):
+def run_set(placement, order=None, respell_dirs=False):
     """placement: {relative path: text}; returns (exit, {unit file name: canonical printed text}, stderr, base)"""
     base = e2e.fresh_dir()
     items = list(placement.items())
@@ -73,7 +73,12 @@ def run_set(placement, order=None):
             os.symlink(t[1], os.path.join(base, p))
         else:
             e2e.write_tree(base, {p: t})
-    rc, so, se = e2e.run_binary(['--dry-run', '--no-kmsg-log', os.path.join(base, 'out')], ':'.join(os.path.join(base, d) for d in dirs))
+    env_dirs = [os.path.join(base, d) for d in dirs]
+    if respell_dirs:
+        # the same search path spelled differently: a trailing slash, a doubled slash, a directory listed twice (the second
+        # listing finds nothing new), a directory that does not exist
+        env_dirs = [env_dirs[0] + '/'] + [d.replace(base, base + '/', 1) if i % 2 else d for i, d in enumerate(env_dirs[1:])] + [env_dirs[0], os.path.join(base, 'no-such-dir')]
+    rc, so, se = e2e.run_binary(['--dry-run', '--no-kmsg-log', os.path.join(base, 'out')], ':'.join(env_dirs))
     _, plist = e2e.split_dry_run(so)
     shutil.rmtree(base, ignore_errors=True)
     return rc, plist, se, base
@@ -90,6 +95,10 @@ def by_source(printed, base=None):
         if m:
             unitdir = os.path.dirname(m.group(1))
             t = t.replace(m.group(1), '<unit>').replace(unitdir + '/', '<unitdir>/').replace(unitdir, '<unitdir>')
+            # paths resolved against the unit's directory are normalised (C17); SourcePath keeps the spelling it was found under
+            nd = os.path.normpath(unitdir)
+            if nd != unitdir:
+                t = t.replace(nd + '/', '<unitdir>/').replace(nd, '<unitdir>')
         if base:
             t = t.replace(base, '<sandbox>')
         out[src] = t
@@ -143,7 +152,7 @@ def oracle(ctx):
 
     def run4(v):
         base, extra, spread, order, shadow = v
-        return run_set(base), run_set(extra), run_set(spread), run_set(base, order), run_set(shadow)
+        return run_set(base), run_set(extra), run_set(spread), run_set(base, order), run_set(shadow), run_set(spread, respell_dirs=True)
     outs = e2e.pmap(run4, vs)
     # per-file verdicts through the hook (which files fail to load or convert)
     ops = []
@@ -151,12 +160,13 @@ def oracle(ctx):
         names = list(fs)
         ops.append(c08.op_of(names, fs, G.sorted_order(rnd, names, ctx.tables)))
     verdicts = ctx.impl(ops)
-    for fs, v, (r0, r1, r2, r3, r4), op, verdict in zip(cases, vs, outs, ops, verdicts):
+    for fs, v, (r0, r1, r2, r3, r4, r5), op, verdict in zip(cases, vs, outs, ops, verdicts):
         res.oracle_evals += 1
         fails = []
         s0 = by_source(r0[1], r0[3])
         for label, r in (('with unrelated files added', r1), ('redistributed over search directories', r2), ('created in another order', r3),
-                         ('with a malformed file of the same name in an earlier search directory', r4)):
+                         ('with a malformed file of the same name in an earlier search directory', r4),
+                         ('with the search path spelled differently (trailing / doubled slashes, a directory listed twice, a missing directory)', r5)):
             s = by_source(r[1], r[3])
             for name in fs:
                 if name.endswith('.pod'):
